@@ -53,3 +53,38 @@ package tensor
 //@   ensures [covering] old(len(d.mask) == n && n == prodInts(d.shape, len(d.shape))) ==> (unbox("bool", result) <==> old(exists i :: 0 <= i && i < len(d.mask) && d.mask[i]))
 //@   ensures [view] old(len(d.mask) == n && n != prodInts(d.shape, len(d.shape))) ==> (unbox("bool", result) <==> old(exists p :: 0 <= p && p < ap_len(d.AP) && d.mask[ap_seq(d.AP, p)]))
 //@   loop 0 invariant [seen] 0 <= _i && _i <= len(d.mask) && (forall i :: 0 <= i && i < _i ==> !d.mask[i])
+
+
+// doMaskCt: the number of masked positions. Specified for a mask that covers exactly the logical content (the scan);
+// for a non-contiguous view the count over the masked iterator is not specified here (it needs an induction over the
+// positions each NextInvalid call skips).
+//@ spec countTrue(m, n) int decreases n = n <= 0 ? 0 : countTrue(m, n-1) + (m[n-1] ? 1 : 0)
+
+//@ func tensor.doMaskCt
+//@   props C15
+//@   config devirt tensor.Tensor=*tensor.Dense,tensor.Iterator=*tensor.FlatMaskedIterator
+//@   config panics allowed
+//@   config frame any
+//@   let d = asptr("tensor.Dense", T)
+//@   let n = len(asptr("tensor.Dense", T).Raw) / rsize(asptr("tensor.Dense", T).t)
+//@   requires [dyn] typeis(T, "*tensor.Dense") && T.val != 0
+//@   requires [nonempty] n >= 1
+//@   requires [addressed] forall p :: 0 <= p && p < ap_len(d.AP) ==> 0 <= ap_seq(d.AP, p) && ap_seq(d.AP, p) < n
+//@   ensures [boxed_int] hastype(result, "int")
+//@   ensures [unmasked] old(len(d.mask) != n) ==> unbox("int", result) == 0
+//@   ensures [covering] old(len(d.mask) == n && n == prodInts(d.shape, len(d.shape))) ==> unbox("int", result) == old(countTrue(d.mask, len(d.mask)))
+//@   loop 0 invariant [seen] 0 <= _i && _i <= len(d.mask) && count == countTrue(d.mask, _i)
+//@   loop 1 invariant [walk] count >= 0 && gh("it_pos", asptr("tensor.FlatMaskedIterator", it).FlatIterator) >= 0 && asptr("tensor.FlatMaskedIterator", it).mask == d.mask && asptr("tensor.FlatMaskedIterator", it).mask.arr != asptr("tensor.FlatMaskedIterator", it).FlatIterator.track.arr && (forall p :: 0 <= p && p < it_len(asptr("tensor.FlatMaskedIterator", it).FlatIterator) ==> 0 <= it_seq(asptr("tensor.FlatMaskedIterator", it).FlatIterator, p) && it_seq(asptr("tensor.FlatMaskedIterator", it).FlatIterator, p) < len(asptr("tensor.FlatMaskedIterator", it).mask)) && (!asptr("tensor.FlatMaskedIterator", it).FlatIterator.isScalar && !asptr("tensor.FlatMaskedIterator", it).FlatIterator.isVector ==> len(asptr("tensor.FlatMaskedIterator", it).FlatIterator.shape) >= 1 && itInv(asptr("tensor.FlatMaskedIterator", it).FlatIterator) && asptr("tensor.FlatMaskedIterator", it).FlatIterator.track.arr != asptr("tensor.FlatMaskedIterator", it).FlatIterator.shape.arr && asptr("tensor.FlatMaskedIterator", it).FlatIterator.track.arr != asptr("tensor.FlatMaskedIterator", it).FlatIterator.strides.arr) && (asptr("tensor.FlatMaskedIterator", it).FlatIterator.isVector ==> 0 <= asptr("tensor.FlatMaskedIterator", it).FlatIterator.veclikeDim && asptr("tensor.FlatMaskedIterator", it).FlatIterator.veclikeDim < len(asptr("tensor.FlatMaskedIterator", it).FlatIterator.track))
+
+//@ func tensor.doNonMaskCt
+//@   props C15
+//@   config devirt tensor.Tensor=*tensor.Dense
+//@   config panics allowed
+//@   config frame any
+//@   let d = asptr("tensor.Dense", T)
+//@   let n = len(asptr("tensor.Dense", T).Raw) / rsize(asptr("tensor.Dense", T).t)
+//@   requires [dyn] typeis(T, "*tensor.Dense") && T.val != 0
+//@   requires [nonempty] n >= 1
+//@   requires [addressed] forall p :: 0 <= p && p < ap_len(d.AP) ==> 0 <= ap_seq(d.AP, p) && ap_seq(d.AP, p) < n
+//@   ensures [unmasked] old(len(d.mask) != n) ==> unbox("int", result) == old(prodInts(d.shape, len(d.shape)))
+//@   ensures [covering] old(len(d.mask) == n && n == prodInts(d.shape, len(d.shape))) ==> unbox("int", result) == old(n - countTrue(d.mask, len(d.mask)))
